@@ -196,7 +196,7 @@ Print Assumptions expression_parser_fuel_suffices.
 (* ================================================================== FROM THE QUERY TEXT
    (DESIGN.md section 5 C06 `no_panic`): the layers above composed along the glue twins
    Model/PipelineS.v (every SELECT shape) -- Proofs/NoPanicTextProofs.v *)
-From KV Require Model.Pipeline Model.PipelineS Model.SelectPlans Model.ScanProj Model.AggregateLazy
+From KV Require Model.PipelineW Model.Pipeline Model.PipelineS Model.SelectPlans Model.ScanProj Model.AggregateLazy
   Model.AggErrPos Proofs.PipelineProofs Proofs.NoPanicTextProofs.
 
 (* for EVERY byte string q (valid or not), every store (sortedness is not needed), row mode and
@@ -312,3 +312,17 @@ Example short_key_list_would_panic :
   forall F fmt bits (ek : EvalVec.kvpair -> res (list (Group.value F))) ea p t kv,
   AggregateLazy.lobs_zip fmt bits ek ea p t [kv] [] = Panic.
 Proof. reflexivity. Qed.
+
+(* PUT / REMOVE from the text (Model/PipelineW.v): NewOptimizer(q).BuildPlan(store) for EVERY
+   text is a plan, a positional rejection or the model boundary -- never a nil dereference of the
+   parser (TPanic), never the twin's fuel (TFuel), and the plan's key / value expressions never
+   reach a panic outcome of the evaluator *)
+Theorem write_plan_text_never_panics :
+  forall (fo : fops) (re : bytes -> bytes -> res bool), (forall p t, re p t <> Panic) ->
+  forall (q : string),
+  match PipelineW.write_plan_text fo re q with
+  | Pipeline.TPanic | Pipeline.TFuel => False
+  | _ => True
+  end.
+Proof. exact NoPanicTextProofs.write_plan_text_clean. Qed.
+Print Assumptions write_plan_text_never_panics.
